@@ -82,14 +82,16 @@ def r1_r2(facts, rep):
                 bad.append("earlier descriptions are changed: %s" % (list(lst.items),))
                 continue
             new_items = lst.items[len(prior):]
-            if d is True and hit:
+            # a path that never consults the flag is taken with describe = true as well
+            if d is not False and hit:
                 want_c = evalnode.constant_value(facts)
                 okp = len(new_items) == 1 and isinstance(new_items[0], Agg) and new_items[0].path == "query::Description" \
                     and new_items[0].field(0) == T("text", Sym("span0")) and new_items[0].field(1) == want_c
                 lk = [e for e in log if e[0] == "lookup"]
                 if not okp or len(lk) != 1 or lk[0][1] != T("text", Sym("span0")):
-                    bad.append("with describe = true and %d earlier description(s) a hit appends %s; specified exactly one Description::Constant(the looked-up text, the matched constant)%s" % (
-                        len(prior), list(new_items), "" if not dom.pc(o.store) else " (path: %s)" % "; ".join("%r=%s" % (p_, b_) for p_, b_ in dom.pc(o.store))[:300]))
+                    bad.append("with describe = true%s and %d earlier description(s) a hit appends %s after %s; specified one lookup and exactly one Description::Constant(the looked-up text, the matched constant)%s" % (
+                        "" if d is True else " (the flag is not even consulted on this path)", len(prior), list(new_items), [e[0] for e in log],
+                        "" if not dom.pc(o.store) else " (path: %s)" % "; ".join("%r=%s" % (p_, b_) for p_, b_ in dom.pc(o.store))[:300]))
             elif new_items:
                 bad.append("describe = %s, %s: the description list gains %s" % (d, "hit" if hit else "miss / error", list(new_items)))
         # the same results on both sides
@@ -102,6 +104,44 @@ def r1_r2(facts, rep):
         rep.ob("C18-R2", "summary:%s" % label, not bad and len(hits_t) >= 1 and len(rf) >= 1, "; ".join(sorted(set(bad))[:3]) if bad else
                "%s: describe does not change any of the %d result paths; one description (looked-up text, matched constant) appended on a hit, none otherwise" % (label, len(rt) + len(both)),
                facts.fn("eval::eval").site(), sample={"node": kind, "paths_true": len(rt), "paths_false": len(rf)})
+
+
+def r2b_operation(facts, rep):
+    """The flag must not steer anything but the description list: on an OPERATION node (two operands, one operator) the
+    sequence of sub-evaluations and the results are the same on both sides of the flag."""
+    from ..absint import core
+    from ..absint.term import Sym
+    from . import evalnode, evalops
+    for opk in ("OP_ADD", "OP_MUL"):
+        tree = {0: {"kind": "OPERATION", "children": [1, 2, 3]}, 1: {"kind": "NUMBER", "children": []},
+                2: {"kind": opk, "children": []}, 3: {"kind": "NUMBER", "children": []}}
+        lk = evalnode.lookup_oracle(facts)
+
+        def extra(dom, it, nm, args, vals, store, lk=lk):
+            # the operator functions are summarised elsewhere (C01-R4); here they are effects
+            if nm in ("eval::add", "eval::sub", "eval::mul", "eval::div", "eval::pow") and len(vals) == 3:
+                st = dom.with_log(store, ("operator", nm))
+                return [(core.ok(evalops.numeric("result")), st), (core.err(Sym("operator_error")), dom.with_log(st, ("operator-failed", nm)))]
+            return lk(dom, it, nm, args, vals, store)
+        try:
+            dom, it, outs, dref = evalnode.run_eval(facts, tree, extra=extra, with_query=True, budget=60000)
+        except core.Undecided as e:
+            rep.ob("C18-R2", "operation:%s" % opk, False, "undecided: %s" % e)
+            continue
+        sides = {True: set(), False: set(), None: set()}
+        for o in outs:
+            if o.kind != "ret":
+                continue
+            d = dom.decide(o.store, Sym("describe"))
+            u = evalops.unpack(o.value)
+            evs = tuple((e[0], e[1]) for e in dom.log(o.store) if e[0] in ("eval-child", "child-failed", "operator", "operator-failed"))
+            sides[d].add((u[0], repr(u[1]) if len(u) > 1 else None, evs))
+        t_, f_ = sides[True] | sides[None], sides[False] | sides[None]
+        okk = t_ == f_ and len(t_) >= 2
+        diff = sorted(t_ ^ f_)[:2]
+        rep.ob("C18-R2", "operation:%s" % opk, okk,
+               "an operation evaluates its operands in the same order with the same results on both sides of the flag (%d distinct paths)" % len(t_) if okk else
+               "the evaluation of an operation depends on the describe flag: %s" % diff, facts.fn("eval::eval").site())
 
 
 def r3_writers(facts, rep):
@@ -173,6 +213,7 @@ def run(fx, rep, tier):
     for cfg, facts in fx.items():
         sub = rep if cfg == "dev" else type(rep)(rep.prop, rep.tier)
         r1_r2(facts, sub)
+        r2b_operation(facts, sub)
         r3_writers(facts, sub)
         r4_no_index_mutation(facts, sub)
         if cfg == "dev":
